@@ -1302,7 +1302,14 @@ def _run_life(cfg, prefix):
 
 def make_runner(cfg):
     fn = _run_lin if cfg['kind'] == 'lin' else _run_life
-    return lambda prefix, expect=None: fn(cfg, prefix)
+    n = [0]
+
+    def run(prefix, expect=None):
+        n[0] += 1
+        if n[0] % 64 == 0:
+            gc.collect()        # (no world is active here)
+        return fn(cfg, prefix)
+    return run
 
 
 def _task_c(arg):
